@@ -6,8 +6,8 @@
 (*  - fixed-input mode (Gen = FALSE): the input is the constant Input.      *)
 EXTENDS Decoder, SmilesReader, Json
 
-CONSTANTS Gen, Alphabet, MaxLen, Input,
-          FirstSyms, AllowEmpty   \* partition of the input space over parallel TLC processes
+(* From DecParams: Gen, Alphabet, MaxLen, Input, and FirstSyms / AllowEmpty *)
+(* (the partition of the input space over parallel TLC processes).          *)
 
 VARIABLE d
 vars == <<d>>
@@ -48,6 +48,18 @@ FastNext == \/ \E s \in Alphabet : Supply(s)
 FastSpec == Init /\ [][FastNext]_vars
 FairSpec == Spec /\ WF_vars(Next)
 
+(* Action coverage without TLC's -coverage (which does not terminate on this *)
+(* recursion-heavy specification): every distinct state is counted under the *)
+(* kind of step it takes next; run with -workers 1, report by POSTCONDITION.  *)
+KindNames == <<"Nop", "ReadAtom", "ReadBranch", "ReadRing", "ReadEps", "ReadFuzzy", "ReadInvalid",
+               "ReadIndex", "PhantomIndex", "IndexDone", "SkipTok", "Pop", "FormRing", "RingsDone",
+               "WNextRoot", "WStep", "wait", "done", "error">>
+KIdx(k) == CHOOSE i \in 1..Len(KindNames) : KindNames[i] = k
+CovSpec == (Init /\ \A i \in 1..Len(KindNames) : TLCSet(100 + i, 0)) /\ [][Next]_vars
+CovCount == LET i == 100 + KIdx(Kind(d)) IN TLCSet(i, TLCGet(i) + 1)
+CovReport == PrintT(ToJson([ev |-> "COVERAGE", names |-> KindNames,
+                            counts |-> [i \in 1..Len(KindNames) |-> TLCGet(100 + i)]]))
+
 (* hide the consumed part of the input: the future does not depend on it *)
 NoAttr(sq) == [i \in 1..Len(sq) |-> [sq[i] EXCEPT !.attr = <<>>]]
 View == << [d EXCEPT !.inp = SubSeq(d.inp, d.rp + 1, Len(d.inp)), !.rp = 0, !.nsym = 0, !.fpos = 0,
@@ -70,6 +82,7 @@ InvRingsClosed  == EveryRingClosed(d)
 InvBalanced     == Balanced(d)
 InvNoEmptyBranch == NoEmptyBranch(d)
 InvAllWritten   == AllWritten(d)
+InvAdjMeaning   == AdjMeaning(d)
 
 (* write . parse = id: the specification's own reader reads the written     *)
 (* string back to the same molecule - atoms in order, bonded pairs and       *)
